@@ -139,7 +139,58 @@ def mutex_probes(ctx, cls, rng):
     return out
 
 
+# the class table must not depend on the order in which classes are first used (a memoised classproperty inherited by a subclass would
+# make a declared child silently unreachable): two fresh interpreters touch every class-level table, bases first resp. leaves first
+ORDER_SCRIPT = r'''
+import sys, json, warnings
+warnings.simplefilter("ignore")
+import ofxtools.models as M
+from ofxtools.models.base import Aggregate
+seen = []
+def walk(c):
+    for s in c.__subclasses__():
+        if s not in seen:
+            seen.append(s); walk(s)
+walk(Aggregate)
+order = sorted(seen, key=lambda c: (len(c.__mro__), c.__name__), reverse=(sys.argv[1] == "leaves-first"))
+props = ("spec", "spec_no_listaggregates", "elements", "subaggregates", "listaggregates", "listelements", "unsupported")
+for c in order:
+    for p in props:
+        getattr(c, p)
+print(json.dumps({c.__name__: {p: list(getattr(c, p)) for p in props} for c in seen}))
+'''
+
+
+def class_tables(order):
+    import subprocess, json, os
+    r = subprocess.run([C.PY, "-c", ORDER_SCRIPT, order], env=dict(os.environ, PYTHONPATH=C.REPO, PYTHONHASHSEED="0"), stdout=subprocess.PIPE, stderr=subprocess.PIPE, text=True, timeout=300)
+    if r.returncode:
+        raise RuntimeError("class-table probe (%s) failed: %s" % (order, r.stderr[-400:]))
+    return json.loads(r.stdout.strip().splitlines()[-1])
+
+
+def order_probe():
+    """-> list of (key, what, replay) for every class-level table that differs between the two histories"""
+    a, b = class_tables("bases-first"), class_tables("leaves-first")
+    out = []
+    for cn in sorted(a):
+        for p, va in a[cn].items():
+            vb = b.get(cn, {}).get(p)
+            if va != vb:
+                lost = [k for k in (vb or []) if k not in va] or [k for k in va if k not in (vb or [])]
+                out.append(("%s.%s:class-table-depends-on-history" % (cn, p),
+                            "%s.%s is %s when base classes are used first and %s when subclasses are used first: declared children %s become unreachable" % (cn, p, va[:8], (vb or [])[:8], lost[:6]),
+                            {"cls": cn, "table": p, "probe": "order"}))
+    return out
+
+
 def run(rep, tier, rng):
+    try:
+        for r in order_probe()[:12]:
+            rep.failures.append(C.Failure(*r))
+        rep.count(("order-probe",), nontrivial=True, kind="class-table-order-probe")
+    except Exception as e:
+        rep.broken.append("class-table order probe could not run: %r" % (e,))
     ctx = H.Ctx()
     d = ctx.d
     T = ctx.Types
@@ -202,6 +253,12 @@ def replay(obj):
     import random
     ctx = H.Ctx()
     r = obj["replay"]
+    if r.get("probe") == "order":
+        res = [x for x in order_probe() if x[2]["cls"] == r["cls"] and x[2]["table"] == r["table"]]
+        print("replay:", res[:1])
+        if res:
+            print("VIOLATION property=C13 replay=(this file)")
+        return 1 if res else 0
     cls = ctx.byname[r["cls"]]
     if "attr" in r:
         res = child_probe(ctx, cls, r["attr"], cls.spec[r["attr"]], random.Random(1))
